@@ -886,6 +886,9 @@ func unop(fr *frame, instr *ssa.UnOp, x value) value {
 		if sp, ok := x.(symptr); ok {
 			return sp.load(fr)
 		}
+		if fr.i.ps.logWrites {
+			fr.logLoad(typeparams.MustDeref(instr.X.Type()), x.(*value))
+		}
 		return load(typeparams.MustDeref(instr.X.Type()), x.(*value))
 	case token.NOT:
 		return !x.(bool)
